@@ -290,6 +290,11 @@ func oracleC04(in map[string]any, r *gtfs.Realtime, canon map[string]any) ([]Vio
 		if tu := gm(e, "tripUpdate"); tu != nil && idDesc(gm(tu, "vehicle")) != nil {
 			assocTrip[descKey(gm(tu, "trip"))] = "V:" + mustJSON(vehIDOfDesc(gm(tu, "vehicle")))
 			tags["assoc-by-trip-update"] = true
+		} else if tu != nil && tu["vehicle"] != nil {
+			// "a trip update carrying a vehicle descriptor": a descriptor that is present but identifies nothing
+			// associates the trip with an id-less vehicle of its own
+			assocTrip[descKey(gm(tu, "trip"))] = fmt.Sprintf("noid:%d", ei)
+			tags["assoc-idless-vehicle-by-trip-update"] = true
 		}
 		if vp := gm(e, "vehicle"); vp != nil && gm(vp, "trip") != nil {
 			if idDesc(gm(vp, "vehicle")) != nil {
@@ -344,6 +349,9 @@ func oracleC04(in map[string]any, r *gtfs.Realtime, canon map[string]any) ([]Vio
 		if vp := gm(e, "vehicle"); vp != nil && gm(vp, "trip") != nil && idDesc(gm(vp, "vehicle")) == nil {
 			nIdlessWithTrip++
 		}
+		if tu := gm(e, "tripUpdate"); tu != nil && tu["vehicle"] != nil && idDesc(gm(tu, "vehicle")) == nil {
+			nIdlessWithTrip++ // a trip update whose vehicle descriptor identifies nothing
+		}
 	}
 	got := 0
 	for j := range r.Vehicles {
@@ -352,7 +360,7 @@ func oracleC04(in map[string]any, r *gtfs.Realtime, canon map[string]any) ([]Vio
 		}
 	}
 	if got != nIdlessWithTrip {
-		viols = append(viols, Viol{"c04-idless", fmt.Sprintf("%d id-less vehicle positions carry a trip descriptor, %d id-less Vehicles have a trip reference", nIdlessWithTrip, got)})
+		viols = append(viols, Viol{"c04-idless", fmt.Sprintf("%d entities associate a trip with an id-less vehicle, %d id-less Vehicles have a trip reference", nIdlessWithTrip, got)})
 	}
 	return viols, tagList(tags), len(assocTrip) == 0
 }
